@@ -103,7 +103,13 @@ def new_key(alg, created, slot=0):
     if alg in ('rsa2048', 'dsa2048'):
         return slow_key(alg, slot)
     a, size = PRIMARY_ALGS.get(alg) or SUBKEY_ALGS[alg]
-    return pgpy.PGPKey.new(a, size, created=created)
+    k = pgpy.PGPKey.new(a, size, created=created)
+    if alg == 'ecdh256':
+        # the KDF hash and the key-wrap cipher are parameters of an ECDH key (RFC 6637 section 9; part of its body and fingerprint): these
+        # keys carry a combination that is not the library's default for the curve, as keys of other producers may
+        from pgpy.constants import HashAlgorithm, SymmetricKeyAlgorithm
+        k._key.keymaterial.kdf.halg, k._key.keymaterial.kdf.encalg = HashAlgorithm.SHA384, SymmetricKeyAlgorithm.AES256
+    return k
 
 
 # ----------------------------------------------------------------------------------------------------------------
